@@ -5,7 +5,7 @@ from harness.common import mk_element, fake_ctx
 
 from spyne import Application, Service, rpc, ComplexModel
 from spyne.model.primitive import (Integer, Integer32, UnsignedInteger8, Decimal, Double, Boolean, Unicode,
-                                   Date, DateTime, Time, Duration)
+                                   Date, DateTime, Time, Duration, Uuid)
 from spyne.model.complex import Array
 from spyne.model.binary import ByteArray
 from spyne.model.enum import Enum
@@ -30,6 +30,7 @@ class Holder(ComplexModel):
     hexblob = ByteArray(encoding='hex')
     color = Color
     many = Integer(max_occurs='unbounded')
+    uid = Uuid
     d = Decimal
     s = Unicode
     flag = Boolean
@@ -162,11 +163,18 @@ def leaf_shaped_text(sx, p):
     return True
 
 
-SLOTS = ['n', 'd', 's', 'flag', 'when', 'at', 't', 'dur', 'dbl', 'inner', 'arr', 'objs', 'blob', 'color', 'many']
+SLOTS = ['n', 'd', 's', 'flag', 'when', 'at', 't', 'dur', 'dbl', 'inner', 'arr', 'objs', 'blob', 'color', 'many', 'uid']
 KINDS = ['none', 'bool', 'int', 'float', 'str', 'list', 'dict']
 
 
-def _kind_value(sx, kind):
+CONCRETE_KINDS = {'bool': [True, False], 'int': [0, -3, 300], 'str': ['', 'a1', '12345678-1234-5678-1234-567812345678', 'zz'],
+                  'list': [[], [5]], 'dict': [{}, {'v': 5}], 'bytes': [b'', b'ab', b'\xff\xfe']}
+
+
+def _kind_value(sx, kind, concrete=False):
+    if concrete and kind in CONCRETE_KINDS:
+        # (slots whose reader is a C function - uuid.UUID - get concrete representatives instead of solver variables)
+        return sx.choose('v' + kind, CONCRETE_KINDS[kind])
     if kind == 'none':
         return None
     if kind == 'bool':
@@ -186,13 +194,59 @@ def _kind_value(sx, kind):
 @harness('C10', params=[(s, k) for s in SLOTS for k in KINDS], label=lambda p: 'slot=%s kind=%s' % p,
          functions=['spyne.protocol.dictdoc.hier.HierDictDocument._doc_to_object',
                     'spyne.protocol.dictdoc.hier.HierDictDocument._from_dict_value'],
-         bounds={'document': 'one member of a 15-member object (numbers, text, dates, binary, enumeration, nested object, arrays, repeated member) carries a value of each JSON kind, floats including NaN / infinity / 1e300'})
+         bounds={'document': 'one member of a 16-member object (numbers, text, dates, binary, enumeration, uuid, nested object, arrays, repeated member) carries a value of each JSON kind, floats including NaN / infinity / 1e300'})
 def json_wrong_kinds(sx, p):
     """a member carrying the wrong JSON kind is refused with a Client fault (or coerced), never a crash"""
     slot, kind = p
-    doc = {'n': 1, slot: _kind_value(sx, kind)}
+    doc = {'n': 1, slot: _kind_value(sx, kind, concrete=(slot == 'uid'))}
     try:
         JSON._doc_to_object(CTX, Holder, doc, JSON.validator)
+    except Fault as e:
+        return _client_fault(e)
+    return True
+
+
+import datetime as _dtm
+from spyne.protocol.yaml import YamlDocument
+from spyne.protocol.msgpack import MessagePackDocument
+
+DPROTS = {'json none': JSON_NOVAL, 'yaml soft': YamlDocument(app=APP, validator='soft'), 'yaml none': YamlDocument(app=APP),
+          'msgpack soft': MessagePackDocument(app=APP, validator='soft'), 'msgpack none': MessagePackDocument(app=APP)}
+NATIVE_KINDS = KINDS + ['date', 'datetime', 'time', 'bytes']
+
+
+def _native_kind_value(sx, kind, concrete=False):
+    """the scalar kinds YAML (timestamps, !!binary) and MessagePack (bin) add to the JSON ones"""
+    if kind == 'date':
+        return _dtm.date(2001, 2, 3)
+    if kind == 'datetime':
+        return sx.choose('vdt', [_dtm.datetime(2001, 2, 3, 4, 5, 6), _dtm.datetime(2001, 2, 3, 4, 5, 6, tzinfo=_dtm.timezone.utc)])
+    if kind == 'time':
+        return 45296            # YAML reads 12:34:56 as the sexagesimal integer 45296
+    if kind == 'bytes':
+        if concrete:
+            return sx.choose('vbytes_c', CONCRETE_KINDS['bytes'])
+        n = sx.choose('blen', [0, 2, -1])
+        if n == -1:
+            return b'\xff\xfe'                 # not UTF-8
+        return sx.text('vbytes', n, lo=0x20, hi=0x7e, bytes_=True) if n else b''
+    return _kind_value(sx, kind, concrete)
+
+
+@harness('C10', params=[(pr, s, k) for pr in sorted(DPROTS) for s in SLOTS for k in NATIVE_KINDS], label=lambda p: '%s slot=%s kind=%s' % p,
+         functions=['spyne.protocol.dictdoc.hier.HierDictDocument._doc_to_object',
+                    'spyne.protocol.dictdoc.hier.HierDictDocument._from_dict_value'],
+         bounds={'document': 'as json_wrong_kinds, for JsonDocument without validator and for YamlDocument / MessagePackDocument with and '
+                             'without soft validation, plus the native kinds those formats add: dates, date-times, sexagesimal '
+                             'integers, binary scalars (0 or 2 symbolic bytes)'})
+def dictdoc_wrong_kinds(sx, p):
+    """whatever native kind a YAML or MessagePack (or unvalidated JSON) document puts into a member, the request is decoded
+    or refused with a Client fault"""
+    pr, slot, kind = p
+    prot = DPROTS[pr]
+    doc = {'n': 1, slot: _native_kind_value(sx, kind, concrete=(slot == 'uid'))}
+    try:
+        prot._doc_to_object(CTX, Holder, doc, prot.validator)
     except Fault as e:
         return _client_fault(e)
     return True
